@@ -4,6 +4,8 @@ import Hertz.Spec.Resp
 import Hertz.Model.Http1.Resp
 import Hertz.Model.HeaderWrite
 import Hertz.Driver.H1Spec
+import Hertz.Model.Http1.Exchange
+import Hertz.Model.Uri
 namespace Hertz.Driver.C11
 open Hertz Hertz.Driver Hertz.H1 Hertz.H1.RespRead
 
@@ -112,7 +114,56 @@ def parseScript (toks : List String) : Option WScript :=
     | ["TR", k, v] => pure { w with trailers := w.trailers ++ [(← hx k, ← hx v)] }
     | _ => pure w) {}
 
-def reqWriteHandle (script impl : List String) : Option Result := do
+/-- What the application asked for, read off the script alone (independent of anything the implementation
+reports): request target and Host for the URL given last, with the query arguments added through the args API.
+`none`: no opinion (relative URL, explicit Host override, CONNECT). -/
+structure Intent where
+  url : Option Bytes := none
+  qa : Option (List ArgKV) := none
+  dpn : Bool := false
+  hostOverride : Bool := false
+  method : Bytes := []
+
+def intentOf (script : List String) : Option Intent :=
+  script.foldlM (fun (w : Intent) (t : String) => do
+    match t.splitOn ":" with
+    | ["M", m] => pure { w with method := ← hx m }
+    | ["U", u] => pure { w with url := some (← hx u), qa := none, dpn := false }
+    | ["Q", k, v] =>
+      let u ← w.url
+      let base := w.qa.getD (parseArgs (Uri.parse [] u).query)
+      pure { w with qa := some (base ++ [{ key := ← hx k, value := ← hx v, noValue := false }]) }
+    | ["QP", _] =>
+      let u ← w.url
+      pure { w with qa := some (w.qa.getD (parseArgs (Uri.parse [] u).query)) }
+    | ["DPN"] => pure { w with dpn := true }
+    | "HO" :: _ => pure { w with hostOverride := true }
+    | _ => pure w) {}
+
+def expectedTarget (proxy : Bool) (script : List String) : Option (Bytes × Bytes) := do
+  let w ← intentOf script
+  let url ← w.url
+  if w.hostOverride || w.method == "CONNECT".toUTF8.toList || !Uri.containsSub Gen.Str.strColonSlashSlash url then none
+  let u := Uri.parse [] url
+  let qa := w.qa.getD []
+  let u' : Uri.URI := if w.dpn then u else u
+  let target :=
+    if proxy then u'.fullURI qa
+    else if w.dpn then
+      u.pathOriginal ++ (if !qa.isEmpty then 63 :: appendArgs qa else if !u.query.isEmpty then 63 :: u.query else [])
+    else u.requestURI qa
+  pure (target, u.host)
+
+/-- known finding: with `DisablePathNormalizing` the target is `PathOriginal()` verbatim, which is empty for a URL
+whose authority is followed by `?query` directly -/
+def dpnEmptyPath (script : List String) : Bool :=
+  match intentOf script with
+  | some w => w.dpn && (match w.url with
+      | some u => (Uri.parse [] u).pathOriginal.isEmpty
+      | none => false)
+  | none => false
+
+def reqWriteHandle (expect : Option (Bytes × Bytes)) (script impl : List String) (bodyLost : Bool := false) : Option Result := do
   match impl with
   | wire :: err :: m :: u :: ua :: ho :: ct :: ndct :: clb :: cc :: nh :: t =>
     let (h, t) ← H1Spec.takePairs nh.toNat! t
@@ -133,6 +184,8 @@ def reqWriteHandle (script impl : List String) : Option Result := do
           -- body bytes the application asked to send, and their encoding on the wire
           let (intended, bodyWire) : Bytes × Bytes := match w.stream with
             | some (d, pieces) =>
+              -- `bodyLost`: the stream was consumed by an earlier attempt of the same `Do` (see `seqHandle`)
+              if bodyLost then ((if d ≥ 0 then pieces.flatten.take d.toNat else pieces.flatten), []) else
               if d ≥ 0 then (pieces.flatten.take d.toNat, pieces.flatten.take d.toNat)
               else (pieces.flatten, H1.Resp.chunkedWire pieces w.trailers)
             | none =>
@@ -154,10 +207,13 @@ def reqWriteHandle (script impl : List String) : Option Result := do
               | some (sr, srest), some (om, ou, oh, ob, orest) =>
                 srest.isEmpty && orest.isEmpty && sr.method == method && om == method && sr.target == ou && sr.body == intended && ob == intended &&
                 (Spec.Http.lookupAll sr.fields "host".toUTF8.toList) == [oh] &&
-                nhttp == [encHex method, encHex sr.target, encHex oh, encHex intended]
+                nhttp == [encHex method, encHex sr.target, encHex oh, encHex intended] &&
+                (match expect with
+                 | some (tg, ho) => sr.target == tg && oh == ho
+                 | none => true)
               | _, _ => false
             pure { out := encHex modelWire :: impl.drop 1, spec := ok,
-                   specNote := "strict decoder, hertz's server-side reader and net/http read the same method, target, Host and body",
+                   specNote := "strict decoder, hertz's server-side reader and net/http read the same method, target, Host and body, and these are the ones the application gave",
                    tag := "reqwrite:" ++ (match w.stream with | some (d, _) => (if d ≥ 0 then "fixedstream" else "chunked") | none => "bytes") ++
                           sizeClass intended.length ++ boolTok (!ck.isEmpty) ++ boolTok r.connClose }
         | _ => none
@@ -203,6 +259,146 @@ def reqMpExpected (args : List String) : Option (List String × Nat) :=
     | _ => none
   | _ => none
 
+def respTokens (r : RespRead.Result) : List String :=
+  let hd := r.head
+  ["ok", toString (if hd.status == 0 then 200 else hd.status), boolTok hd.http11, encHex hd.contentType, encHex hd.contentEncoding, encHex hd.server,
+   toString hd.cl, encHex hd.clBytes, boolTok hd.connClose, toString hd.h.length]
+  ++ hd.h.flatMap (fun kv => [encHex kv.1, encHex kv.2])
+  ++ [toString hd.cookies.length] ++ hd.cookies.map encHex
+  ++ [toString r.trailers.length] ++ r.trailers.flatMap (fun kv => [encHex kv.1, encHex kv.2])
+  ++ [encHex r.body]
+
+/-! ### sequences of exchanges through the client (`c11seq`) -/
+
+def takeStr : Nat → List String → Option (List String × List String)
+  | 0, r => some ([], r)
+  | n + 1, a :: r => (takeStr n r).map (fun (l, r') => (a :: l, r'))
+  | _, _ => none
+
+def countSub (pat : Bytes) : Bytes → Nat
+  | [] => 0
+  | c :: t => (if pat.isPrefixOf (c :: t) then 1 else 0) + countSub pat t
+
+/-- the peer sent exactly one conforming message (an interim 100 aside) and nothing after it: only then may the
+NEXT exchange on the same connection be held to "comes back as sent" (a property about conforming servers) -/
+def cleanResp (skip : Bool) (e : End) (s : Bytes) : Bool :=
+  if skip then
+    -- answer to HEAD: header block(s) only
+    let crlf2 : Bytes := [13, 10, 13, 10]
+    let n := countSub crlf2 s
+    crlf2.isPrefixOf (s.drop (s.length - 4)) && (n == 1 || (n == 2 && "HTTP/1.1 100 ".toUTF8.toList.isPrefixOf s))
+  else
+    match (do
+      let (m0, r0) ← Spec.Resp.decodeOne false s
+      if m0.status == 100 then Spec.Resp.decodeOne false r0 else pure (m0, r0)) with
+    | some (m, rest) =>
+      (match m.framing with
+       | .none => (Spec.Resp.noBodyStatus m.status && rest.isEmpty) || (!Spec.Resp.noBodyStatus m.status && e == .eof)
+       | _ => rest.isEmpty)
+    | none => false
+
+structure SeqStep where
+  reuse : String
+  script : List String
+  resp : Bytes
+  close : Bool
+
+def parseSteps : Nat → List String → Option (List SeqStep)
+  | 0, [] => some []
+  | 0, _ => none
+  | n + 1, reuse :: k :: t => do
+    let (script, t) ← takeStr k.toNat! t
+    match t with
+    | r :: c :: t' =>
+      let rest ← parseSteps n t'
+      pure ({ reuse, script, resp := ← hx r, close := c == "1" } :: rest)
+    | _ => none
+  | _, _ => none
+
+structure SeqImpl where
+  dials : Nat
+  req : List String
+  res : List String
+
+def parseSeqImpl : Nat → List String → Option (List SeqImpl)
+  | 0, [] => some []
+  | 0, _ => none
+  | n + 1, "X" :: d :: k :: t => do
+    let (rq, t) ← takeStr k.toNat! t
+    match t with
+    | m :: t' =>
+      let (rs, t'') ← takeStr m.toNat! t'
+      let rest ← parseSeqImpl n t''
+      pure ({ dials := d.toNat!, req := rq, res := rs } :: rest)
+    | _ => none
+  | _, _ => none
+
+def scriptMethod (script : List String) : Bytes :=
+  ((intentOf script).map (·.method)).getD []
+
+def outcomeTokens : Exchange.Outcome → List String
+  | .ok r => respTokens r
+  | .err e => [errTok e]
+  | .badPool => ["err:badpool"]
+
+/-- the exchanges of a sequence one by one: model state threaded through; per exchange the request part is
+judged by `reqWriteHandle` (on the bytes the peer received) and the response part by the exchange model, the
+spec being that a conforming response comes back as sent, *whatever happened on the connection before* -/
+def seqHandle (flags : String) (maxBody n : Nat) (rest impl : List String) : Option Result := do
+  let steps ← parseSteps n rest
+  let impls ← parseSeqImpl n impl
+  let cfg : Exchange.Cfg := { disableNorm := flags.contains 'n', maxBody }
+  let init : Exchange.St × List String × Bool × String × String × Bool × String × Bool × Bool := ({}, [], true, "", "", false, "", true, false)
+  let (_, out, spec, note, tag, _, cls, _, _) ← (steps.zip impls).foldlM (fun acc (si : SeqStep × SeqImpl) => do
+    let (st, out, spec, note, tag, prevFailed, cls, conforming, sticky) := acc
+    let (s, i) := si
+    let method := scriptMethod s.script
+    let isStream := s.script.any (fun t => t.startsWith "BS:")
+    let idem := ["GET", "HEAD", "PUT", "DELETE", "OPTIONS", "TRACE"].any (fun m => m.toUTF8.toList == method)
+    -- `DefaultRetryIf` refuses requests whose body is a stream, but it is asked AFTER the first attempt, whose
+    -- `req.Write` has closed and dropped the stream (`CloseBodyStream`): `IsBodyStream()` is false by then.  So an
+    -- idempotent request is retried whatever its body was, and the second attempt has no body left to send.
+    let willRetry := match st.idle with
+      | some c => idem && c.pending.isEmpty && (c.peerClosed || (s.resp.isEmpty && s.close))
+      | none => false
+    let bodyLost := willRetry && isStream
+    -- request side
+    let rr ← reqWriteHandle (expectedTarget false s.script) s.script i.req bodyLost
+    let cc := i.req.getD 9 "0" == "1"
+    -- flag `r`: ONE Response object for all exchanges, never reset by the application.  `doNonNilReqResp` backs up
+    -- `resp.SkipBody` around its own `resp.Reset()` ("in case it was set explicitly") - but the flag it finds set
+    -- may be the one IT set for an earlier HEAD request, so from then on every body is skipped (and left unread).
+    let isHead := method == "HEAD".toUTF8.toList
+    let skipBody := isHead || (flags.contains 'r' && sticky)
+    let rq : Exchange.Req := { skipBody, retryable := idem, connClose := cc }
+    -- the peer answers when it has one complete request; bytes that are no complete request get no answer
+    let complete := match (hx (rr.out.headD "-")).bind Spec.Http.decodeOne with
+      | some (_, []) => true
+      | _ => false
+    let sv : Exchange.Srv := if complete then { resp := s.resp, closeAfter := s.close } else { resp := [], closeAfter := false }
+    let cls' := if !complete && s.reuse == "keep" then "reuse-stale-framing"
+                else if bodyLost && !rr.spec then "stream-body-lost-on-retry"
+                else if dpnEmptyPath s.script && !rr.spec then "dpn-empty-path-target"
+                else if skipBody && !isHead then "skipbody-sticky-on-response-reuse" else cls
+    let (st', o) := Exchange.exchange cfg st rq sv
+    -- response side: the spec looks at THIS exchange's response bytes only
+    let e := if s.close then End.eof else End.stall
+    let (sok, snote) :=
+      if !complete then (true, "no complete request")
+      else if !conforming then (true, "the peer did not conform earlier in the sequence")
+      else if o == .badPool && i.res == ["err:badpool"] then (true, "pooled connection closed by the peer, request not repeatable")
+      else specCheck isHead e maxBody s.resp (if i.res.headD "" == "ok" then i.res ++ ["0"] else i.res)
+    let spec' := spec && rr.spec && sok
+    let note' := if !note.isEmpty then note else if !rr.spec then "request: " ++ rr.specNote else if !sok then "response: " ++ snote else ""
+    let t := (s.reuse.take 1).toString ++ (if o.isOk then "k" else (outcomeTokens o).headD "?") ++ (if prevFailed then "!" else "") ++
+             (if st.idle.isSome && st'.dials == st.dials then "r" else "d")
+    pure (st', out ++ ["X", toString st'.dials, toString rr.out.length] ++ rr.out ++
+                [toString (outcomeTokens o).length] ++ outcomeTokens o,
+          spec', note', (if (tag.splitOn ",").contains t then tag else tag ++ (if tag.isEmpty then "" else ",") ++ t), !o.isOk, cls',
+          conforming && complete && cleanResp isHead e s.resp && !(skipBody && !isHead), skipBody)) init
+  pure { out, spec, cls, specNote := if note.isEmpty then "every request arrives as given and every conforming response comes back as sent" else note,
+         tag := "seq:" ++ flags ++ (if maxBody > 0 then "L" else "") ++ ":" ++ ",".intercalate ((tag.splitOn ",").take 3) }
+
 def handle : Handler
   | "reqmp" :: args, impl =>
     match reqMpExpected args with
@@ -223,16 +419,12 @@ def handle : Handler
     | .error x => pure { out := [errTok x], spec := sok, specNote := snote, tag := "respread:" ++ errTok x ++ (if endK == "stall" then "S" else "E") }
     | .ok r =>
       let hd := r.head
-      pure { out := ["ok", toString (if hd.status == 0 then 200 else hd.status), boolTok hd.http11, encHex hd.contentType, encHex hd.contentEncoding, encHex hd.server,
-                     toString hd.cl, encHex hd.clBytes, boolTok hd.connClose, toString hd.h.length]
-                    ++ hd.h.flatMap (fun kv => [encHex kv.1, encHex kv.2])
-                    ++ [toString hd.cookies.length] ++ hd.cookies.map encHex
-                    ++ [toString r.trailers.length] ++ r.trailers.flatMap (fun kv => [encHex kv.1, encHex kv.2])
-                    ++ [encHex r.body, toString r.rest.length],
+      pure { out := respTokens r ++ [toString r.rest.length],
              spec := sok, specNote := snote,
              tag := (if snote.startsWith "status" then "wf:" else "") ++ (if skip then "head:" else "") ++ "respread:ok:" ++ toString (if hd.cl < 0 then hd.cl else 0) ++ sizeClass r.body.length ++ boolTok hd.connClose ++
                     boolTok (!r.trailers.isEmpty) ++ boolTok (mustSkipCL hd.status) ++ sizeClass hd.h.length }
-  | "reqwrite" :: _proxy :: script, impl => reqWriteHandle script impl
+  | "reqwrite" :: proxy :: script, impl => reqWriteHandle (expectedTarget (proxy == "1") script) script impl
+  | "c11seq" :: flags :: maxBody :: _frag :: n :: rest, impl => seqHandle flags maxBody.toNat! n.toNat! rest impl
   | _, _ => none
 
 end Hertz.Driver.C11
